@@ -20,7 +20,7 @@ MODE_NO = 48            # modes of the randomization method in histories (cost o
 NC, NK, NP = 21, 3, 9   # trace row layout: result block, (cnames, knames, haspos), cur_desc + seed
 OPN = ["Call", "SetPos", "SetCond:NewVals", "SetCond:NewPos", "SetCond:Refresh", "ModelInplace", "SetModel",
        "SetMean", "SetTrend", "SetNorm", "SetGen", "MutatePosInPlace", "DirectKrigeCall", "AssignPos", "ReassignSameModel",
-       "MutateCondArrayInPlace"]
+       "MutateCondArrayInPlace", "SetCond:NewErr"]
 NCOL = 10               # row = [code, haspos, base, jit, mesh, seed+1, nosave, chunk option, store-name set, ext-drift id]
 
 
@@ -102,8 +102,16 @@ class World:
         self.cur_mtn = dict(mean=None if self.unbiased and r.random() < 0.5 else float(r.normal()), trend=None, normalizer=None)
 
     def pos(self, base, jit, mesh):
-        # bases 4..7 = bases 0..3 shifted by 0.37: same shape (reachable by editing a passed array in place), clearly different
-        ax = [a + jit * 2e-6 + (0.37 if base >= 4 else 0.0) for a in self.bases[base % 4]]
+        # base = pool index + 4 * variant, all of the same shape (reachable by editing a passed array in place), clearly different:
+        # variant 1: every coordinate row / axis shifted by 0.37; variant 2: ONLY the last row / axis shifted by 0.41 (the other
+        # rows / axes are kept: parallel profile lines, a grid with one axis exchanged); variant 3: only the first one shifted
+        v, ax = base // 4, [a + jit * 2e-6 for a in self.bases[base % 4]]
+        if v == 1:
+            ax = [a + 0.37 for a in ax]
+        elif v == 2:
+            ax[-1] = ax[-1] + 0.41
+        elif v == 3:
+            ax[0] = ax[0] + 0.43
         return tuple(ax)   # same tuple of axes for both mesh types (unstructured: points (x_i, y_i, z_i))
 
     def user_pos(self, base, jit, mesh):
@@ -143,7 +151,18 @@ class World:
         else:
             cp = [a.copy() for a in old[0]]
         cv = r.normal(size=len(cp[0])) * 1.5 + 0.5
-        return (cp, cv)
+        ce = None if old is None else old[2]
+        if old is None:
+            k = r.random()         # explicit measurement error (exact=False): none ("nugget") / scalar / one value per point
+            ce = None if k < 0.55 else (float(r.uniform(0.02, 0.4)) if k < 0.8 else r.uniform(0.02, 0.4, len(cv)))
+        elif isinstance(ce, np.ndarray) and len(ce) != len(cv):
+            ce = r.uniform(0.02, 0.4, len(cv))
+        return (cp, cv, ce)
+
+    def new_err(self, old):
+        r = self.rng
+        ce = float(r.uniform(0.02, 0.4)) if r.random() < 0.5 else r.uniform(0.02, 0.4, len(old[1]))
+        return (old[0], old[1], ce)
 
     def new_model(self):
         gs, r = self.gs, self.rng
@@ -184,6 +203,8 @@ class World:
     def user_cond(self, cond):
         """the float64 arrays the CALLER passes as conditions (kept, so that they can be edited in place later)"""
         self.ucond = dict(pos=np.array(cond[0], dtype=np.double), val=np.array(cond[1], dtype=np.double))
+        if isinstance(cond[2], np.ndarray):
+            self.ucond["err"] = np.array(cond[2], dtype=np.double)
         if self.ext:
             self.ucond["ext"] = np.array(ext_fun(*cond[0]), dtype=np.double)
         return self.ucond
@@ -194,7 +215,7 @@ class World:
         kr = gs.krige.Krige(copy.deepcopy(model_mat), [a.copy() for a in cond[0]], cond[1].copy(),
                             drift_functions=self.drift, ext_drift=ext_fun(*cond[0]) if self.ext else None,
                             mean=mtn["mean"], normalizer=copy.deepcopy(mtn["normalizer"]),
-                            trend=mtn["trend"], unbiased=self.unbiased)
+                            trend=mtn["trend"], unbiased=self.unbiased, **cerr_kw(cond))
         if model_rhs is not None:
             # right-hand sides from another model content than the inverted matrix (in-place change without refresh)
             gs.field.base.Field.model.fset(kr, copy.deepcopy(model_rhs))
@@ -205,6 +226,11 @@ class World:
         c = self.gs.CondSRF(kr, seed=seed, mode_no=MODE_NO)
         f = c(pos, mesh_type=mesh, **ext_kw)
         return f, dict(raw_krige=c.raw_krige, raw_field=c.raw_field, krige_var=c.krige.krige_var, krige_field=c.krige.field)
+
+
+def cerr_kw(cond):
+    ce = cond[2]
+    return {} if ce is None else dict(cond_err=ce.copy() if isinstance(ce, np.ndarray) else ce)
 
 
 def mesh_name(m):
@@ -227,6 +253,14 @@ def gen_rows(rng, nops, allow_jit):
     cur = None        # (base, jit, mesh) last passed = content of the caller's array
     # the store-name sets used by this history: mostly the default, often two or three different ones
     nsets = [[0], [0, 1], [0, 1, 2], [1, 2]][int(rng.choice(4, p=[0.45, 0.3, 0.15, 0.1]))]
+
+    def new_base():
+        """a new position id: a random pool entry, or one that KEEPS some coordinate rows / axes of the present positions"""
+        if cur is not None and rng.random() < 0.4:
+            b = cur[0] % 4 + 4 * int(rng.choice([2, 3, 0]))
+            if b != cur[0]:
+                return b
+        return int(rng.integers(4)) + 4 * int(rng.choice([0, 0, 0, 2, 3]))
 
     def call_row(haspos, b=0, j=0, m=0):
         row = [0, haspos, b, j, m, 0, 0, 0, int(nsets[int(rng.integers(len(nsets)))]), int(rng.choice([0, 0, 0, 1, 2]))]
@@ -251,14 +285,14 @@ def gen_rows(rng, nops, allow_jit):
             elif v < 0.75:
                 row = [12, 0, 0, 0, 0, 0, 0, 0, 0, int(rng.choice([0, 0, 1]))]
                 if rng.random() < 0.75:
-                    b, m = int(rng.integers(4)), int(rng.random() < 0.3)
+                    b, m = new_base(), int(rng.random() < 0.3)
                     if rng.random() < 0.3:
                         b, m = cur[0], cur[2]
                     row[1:5] = [1, b, 0, m]
                     cur = (b, 0, m)
                 rows.append(row)
             else:
-                b = int(rng.integers(4))
+                b = new_base()
                 rows.append([13, 1, b, 0, cur[2]])
                 cur = (b, 0, cur[2])
             continue
@@ -272,7 +306,7 @@ def gen_rows(rng, nops, allow_jit):
                     if allow_jit and rng.random() < 0.5:
                         j = int(rng.integers(0, 4))
                 else:
-                    b, j, m = int(rng.integers(4)), 0, int(rng.random() < 0.3)
+                    b, j, m = new_base(), 0, int(rng.random() < 0.3)
                     if cur is not None and rng.random() < 0.25:
                         b, m = cur[0], 1 - cur[2]            # same points, other mesh type
                 rows.append(call_row(1, b, j, m))
@@ -280,7 +314,7 @@ def gen_rows(rng, nops, allow_jit):
             else:
                 rows.append(call_row(0))
         elif u < 0.44:
-            b, j, m = int(rng.integers(4)), 0, int(rng.random() < 0.3)
+            b, j, m = new_base(), 0, int(rng.random() < 0.3)
             if cur is not None and rng.random() < 0.3:
                 b, j, m = cur
                 if allow_jit:
@@ -310,8 +344,10 @@ def gen_rows(rng, nops, allow_jit):
             rows.append([9])
         elif u < 0.94:
             rows.append([10, 0, 0, 0, 0, 1 + int(rng.integers(1, 2000))])
-        elif u < 0.96:
+        elif u < 0.955:
             rows.append([14])
+        elif u < 0.975:
+            rows.append([16])                                # set_condition(cond_err=...)
         else:
             rows.append([15])                                # the caller edits cond_pos / cond_val / ext_drift arrays in place
     return rows
@@ -342,7 +378,7 @@ class HistoryRunner:
         for r in rows:
             if r[0] == 5:
                 dirty = True
-            if r[0] in (2, 3, 4, 6, 14):
+            if r[0] in (2, 3, 4, 6, 14, 16):
                 dirty = False
             if r[0] in (0, 1, 12, 13) and r[1]:
                 haspos = True
@@ -364,8 +400,9 @@ class HistoryRunner:
         # ---- the implementation object
         live_model = copy.deepcopy(w.cur_model)
         uc = w.user_cond(w.cur_cond)
+        ckw = {} if w.cur_cond[2] is None else dict(cond_err=uc.get("err", w.cur_cond[2]))
         kr = gs.krige.Krige(live_model, uc["pos"], uc["val"], drift_functions=w.drift, ext_drift=uc.get("ext"),
-                            mean=w.cur_mtn["mean"], normalizer=None, trend=None, unbiased=w.unbiased)
+                            mean=w.cur_mtn["mean"], normalizer=None, trend=None, unbiased=w.unbiased, **ckw)
         csrf = gs.CondSRF(kr, seed=w.seed0, mode_no=MODE_NO)
         calls = [0]
         orig = kr._summate
@@ -437,7 +474,9 @@ class HistoryRunner:
                 elif code == 3:
                     w.cur_cond = w.new_cond(True, w.cur_cond)
                     uc = w.user_cond(w.cur_cond)
-                    csrf.krige.set_condition(uc["pos"], uc["val"], ext_drift=uc.get("ext"))
+                    # a scalar measurement error is NOT repeated (it must persist); a per-point one is given for the new points
+                    ckw = dict(cond_err=uc["err"]) if "err" in uc else {}
+                    csrf.krige.set_condition(uc["pos"], uc["val"], ext_drift=uc.get("ext"), **ckw)
                     dirty, last_change = False, OPN[code]
                 elif code == 4:
                     csrf.krige.set_condition()
@@ -497,12 +536,21 @@ class HistoryRunner:
                     csrf.pos = w.user_pos(r[2], r[3], m)
                     cur_pos = (r[2], r[3], m)
                     cur_xd = r[9]
+                elif code == 16:
+                    w.cur_cond = w.new_err(w.cur_cond)
+                    if isinstance(w.cur_cond[2], np.ndarray):
+                        w.ucond["err"] = np.array(w.cur_cond[2], dtype=np.double)
+                        csrf.krige.set_condition(cond_err=w.ucond["err"])
+                    else:
+                        w.ucond.pop("err", None)
+                        csrf.krige.set_condition(cond_err=w.cur_cond[2])
+                    dirty, last_change = False, OPN[code]
                 elif code == 14:
                     csrf.model = csrf.model         # the same (possibly edited) object
                     dirty, last_change = False, OPN[code]
                 elif code == 15:
                     # the caller edits arrays passed earlier as conditions; the conditions of the object must not follow
-                    which = [k for k in ("val", "pos", "ext") if k in w.ucond]
+                    which = [k for k in ("val", "pos", "ext", "err") if k in w.ucond]
                     which = which[int(w.rng.integers(len(which)))]
                     w.ucond[which] += 0.7
                     last_change = OPN[code] + ":" + which
@@ -608,6 +656,8 @@ class HistoryRunner:
             bad.append("cond_pos")
         if w.ext and differ(kr.cond_ext_drift, np.atleast_2d(ext_fun(*w.cur_cond[0]))):
             bad.append("cond_ext_drift")
+        if differ(kr.cond_err, float(model_now.nugget) if w.cur_cond[2] is None else w.cur_cond[2]):
+            bad.append("cond_err")
         if dirty or bad:
             return bad
         fk = w.krige(w.cur_cond, model_now, w.cur_mtn)
@@ -644,7 +694,7 @@ class HistoryRunner:
             ctx.violation("probe: call after a history vs freshly built object", "closing call at the conditioning points differs from a fresh object by %.3g"
                           % (float(np.max(np.abs(fresh - out))) if fresh.shape == out.shape else np.nan), case, key="history:stale-at-closing-call")
             return case
-        if condK < 1e8:
+        if condK < 1e8 and w.cur_cond[2] is None:        # zero measurement error: the data are honoured exactly
             var = float(csrf.model.var)
             scale = 1.0 + float(np.max(np.abs(cv)))
             # deviation allowed in the normalized space (solver accuracy + sqrt of the remaining variance), mapped through the
@@ -699,10 +749,10 @@ def honour_probe(ctx, rng, drv, reps):
     variants = ["Simple", "Ordinary", "Universal", "ExtDrift", "Detrended"]
     models = [gs.Exponential, gs.Gaussian, gs.Spherical, gs.Stable, gs.Matern]
     for rep in range(reps):
-        for variant in variants:
-            for dim in (1, 2, 3):
+        # every cell variant x dim x {no nugget, nugget with exact=True} is enumerated (not drawn)
+        for variant, dim, nug in [(v, d, g) for v in variants for d in (1, 2, 3) for g in (0.0, 0.2)]:
+            if True:
                 mcls = models[int(rng.integers(len(models)))]
-                nug = float(rng.choice([0.0, 0.0, 0.2]))
                 mesh = int(rng.random() < 0.35)
                 # conditioning points on grid nodes with spacing >= 1 (well separated w.r.t. the length scale)
                 axes = [np.sort(rng.choice(np.arange(1.0, 7.0), size=3 if dim > 1 else 5, replace=False)) for _ in range(dim)]
@@ -988,6 +1038,130 @@ def window_probe(ctx, rng):
                           % float(np.max(np.abs(f2 - fresh))), dict(probe="ext-drift-per-call", a=a.tolist(), b=b.tolist()), key="history:stale-after:Call:other-ext_drift")
 
 
+def cond_err_probe(ctx, rng, reps):
+    """explicit measurement errors (exact=False; scalar, one per point, an explicit 0 next to a model nugget) must survive
+    every refresh of the kriging setup: compared with a fresh object built with the same options.  Quantities without random
+    nugget noise are compared (kriging matrix, cond_err, kriging field / variance, raw kriging field of CondSRF)."""
+    import gstools as gs
+    refreshes = ["set_condition()", "set_condition(cond_val=new)", "model = new object", "model = same object", "mean =", "trend =",
+                 "normalizer =", "set_condition(new pos, val)"]
+    for rep in range(reps):
+        for kind in ("scalar", "points", "zero"):
+            for op in refreshes:
+                dim = int(rng.integers(1, 4))
+                n = int(rng.integers(3, 6))
+                nug = float(rng.choice([0.0, 0.3])) if kind != "zero" else 0.3
+                st = dict(cls=[gs.Exponential, gs.Gaussian, gs.Spherical][int(rng.integers(3))],
+                          mkw=dict(dim=dim, var=float(rng.uniform(0.5, 2)), len_scale=float(rng.uniform(0.6, 2)), nugget=nug),
+                          cp=rng.uniform(1, 6, size=(dim, n)), cv=rng.normal(size=n), mean=float(rng.normal()), trend=None, norm=None,
+                          unb=bool(rng.random() < 0.5),
+                          ce=(float(rng.uniform(0.02, 0.3)) if kind == "scalar" else rng.uniform(0.02, 0.3, n) if kind == "points" else 0.0))
+
+                def build(st):
+                    ce = st["ce"].copy() if isinstance(st["ce"], np.ndarray) else st["ce"]
+                    return gs.krige.Krige(st["cls"](**st["mkw"]), st["cp"].copy(), st["cv"].copy(), mean=st["mean"], trend=st["trend"],
+                                          normalizer=st["norm"], unbiased=st["unb"], exact=False, cond_err=ce)
+                pos = rng.uniform(0.5, 6.5, size=(dim, 7))
+                ctx.count(("cond_err", kind, op), hist=dict(probe="cond_err x refresh", cond_err=kind, refresh=op))
+                case = dict(probe="cond_err", cond_err_kind=kind, cond_err=np.asarray(st["ce"]).tolist(), refresh=op, model=repr(st["cls"](**st["mkw"])),
+                            cond_pos=st["cp"].tolist(), cond_val=st["cv"].tolist(), unbiased=st["unb"], pos=pos.tolist())
+                try:
+                    kr = build(st)
+                    csrf = gs.CondSRF(kr, seed=5, mode_no=32)
+                    csrf(pos)
+                    if op == "set_condition()":
+                        kr.set_condition()
+                    elif op == "set_condition(cond_val=new)":
+                        st["cv"] = rng.normal(size=n)
+                        kr.set_condition(cond_val=st["cv"].copy())
+                    elif op == "model = new object":
+                        st["mkw"] = dict(st["mkw"], len_scale=st["mkw"]["len_scale"] * 1.5)
+                        csrf.model = st["cls"](**st["mkw"])
+                    elif op == "model = same object":
+                        st["mkw"] = dict(st["mkw"], len_scale=st["mkw"]["len_scale"] * 0.7)
+                        csrf.model.len_scale = st["mkw"]["len_scale"]
+                        csrf.model = csrf.model
+                    elif op == "mean =":
+                        st["mean"] = float(rng.normal())
+                        csrf.mean = st["mean"]
+                    elif op == "trend =":
+                        st["trend"] = float(rng.normal())
+                        csrf.trend = st["trend"]
+                    elif op == "normalizer =":
+                        st["norm"] = gs.normalizer.YeoJohnson(lmbda=1.3)
+                        csrf.normalizer = gs.normalizer.YeoJohnson(lmbda=1.3)
+                    else:
+                        st["cp"] = rng.uniform(1, 6, size=(dim, n))
+                        st["cv"] = rng.normal(size=n)
+                        kr.set_condition(st["cp"].copy(), st["cv"].copy())
+                    csrf(seed=6)
+                    fk = build(st)
+                    fc = gs.CondSRF(fk, seed=6, mode_no=32)
+                    fc(pos)
+                    got = dict(cond_err=kr.cond_err, kriging_matrix=kr._krige_mat, krige_field=kr.field, krige_var=kr.krige_var, raw_krige=csrf.raw_krige)
+                    exp = dict(cond_err=fk.cond_err, kriging_matrix=fk._krige_mat, krige_field=fk.field, krige_var=fk.krige_var, raw_krige=fc.raw_krige)
+                except Exception as e:  # noqa
+                    ctx.violation("probe: cond_err x refresh", "exception %r" % (e,), case, key="cond_err:exception:%s:%s" % (kind, op))
+                    continue
+                bad = [k for k in got if np.shape(got[k]) != np.shape(exp[k]) or
+                       not np.all(np.abs(np.asarray(got[k], float) - np.asarray(exp[k], float)) <= 1e-12 * max(1.0, float(np.max(np.abs(exp[k])))))]
+                if bad:
+                    ctx.violation("probe: cond_err x refresh", "explicit measurement error (%s) and '%s': %s differ(s) from a fresh object built with the same options"
+                                  % (kind, op, ", ".join(bad)), dict(case, differing=bad, cond_err_after=np.asarray(kr.cond_err).tolist()),
+                                  key="cond_err:%s:%s" % (kind, op))
+    # documented rejection: the exact interpolator excludes explicit measurement errors
+    for ce in (0.1, [0.1, 0.2, 0.3]):
+        ctx.count(("cond_err", "exact-rejects", np.ndim(ce)), hist=dict(probe="cond_err x refresh", cond_err="exact=True rejects"))
+        try:
+            gs.krige.Krige(gs.Exponential(dim=1, nugget=0.5), [[1.0, 2.0, 3.0]], [0.1, 0.2, 0.3], exact=True, cond_err=ce)
+            ctx.violation("probe: cond_err x refresh", "Krige(exact=True, cond_err=%r) did not raise the documented ValueError" % (ce,),
+                          dict(probe="cond_err", exact=True, cond_err=ce), key="cond_err:exact-not-rejected")
+        except ValueError:
+            pass
+
+
+def partial_pos_probe(ctx, rng, reps):
+    """position changes that keep SOME coordinate rows / grid axes (parallel profile lines, one grid axis exchanged, a slice
+    moved in z), through every entry point that takes positions"""
+    import gstools as gs
+    for rep in range(reps):
+        for dim in (2, 3):
+            for mesh in (0, 1):
+                for entry in ("call", "set_pos", "structured/unstructured", "krige-then-call"):
+                    keep = int(rng.integers(dim))                      # the row / axis that stays
+                    n = int(rng.integers(3, 6))
+                    cp = rng.uniform(1, 6, size=(dim, 5))
+                    cv = rng.normal(size=5)
+                    mk = lambda: gs.CondSRF(gs.krige.Ordinary(gs.Exponential(dim=dim, var=1.3, len_scale=1.5), cp, cv), seed=9, mode_no=32)  # noqa: E731
+                    ax1 = [np.sort(rng.uniform(1, 6, n)) for _ in range(dim)]
+                    ax2 = [a.copy() if d == keep else np.sort(rng.uniform(1, 6, n)) for d, a in enumerate(ax1)]
+                    p1, p2 = (tuple(ax1), tuple(ax2)) if mesh else (np.array(ax1), np.array(ax2))
+                    mt = mesh_name(mesh)
+                    ctx.count(("partial-pos", dim, mesh, entry), hist=dict(probe="partial position change", dim=dim, mesh=mt, entry=entry))
+                    case = dict(probe="partial-pos", dim=dim, mesh=mt, entry=entry, kept_row=keep, pos1=np.array(ax1).tolist(), pos2=np.array(ax2).tolist(),
+                                cond_pos=cp.tolist(), cond_val=cv.tolist())
+                    try:
+                        c = mk()
+                        c(p1, mesh_type=mt)
+                        if entry == "call":
+                            f = c(p2, mesh_type=mt)
+                        elif entry == "set_pos":
+                            c.set_pos(p2, mt)
+                            f = c()
+                        elif entry == "structured/unstructured":
+                            f = c.structured(p2) if mesh else c.unstructured(p2)
+                        else:
+                            c.krige(p2, mesh_type=mt)
+                            f = c()
+                        fresh = mk()(p2, mesh_type=mt)
+                    except Exception as e:  # noqa
+                        ctx.violation("probe: partial position change", "exception %r" % (e,), case, key="partial-pos:exception:" + entry)
+                        continue
+                    if np.shape(f) != np.shape(fresh) or not np.all(np.abs(f - fresh) <= 1e-12 * (1 + np.abs(fresh))):
+                        ctx.violation("probe: partial position change", "new positions that keep coordinate row / axis %d (%s, dim %d, via %s): field differs from a fresh object by %.3g"
+                                      % (keep, mt, dim, entry, float(np.max(np.abs(f - fresh)))), case, key="partial-pos:%s:%s" % (mt, entry))
+
+
 def corpus_cases():
     d = os.path.join(C.VERIF, "corpus", "C07")
     out = []
@@ -1010,7 +1184,7 @@ def run(ctx, only_history=None):
     rng = C.Rng(ctx.seed, "C07")
     thorough = ctx.tier == "thorough"
     merge_local_known_findings(ctx)
-    ctx.rule = ("operation histories of <= 10 operations (+ closing refresh/call + call at the conditioning points) over {call(pos?, seed?, 1-3 store-name sets, store raw_krige?, chunk_size none/1/not dividing/> n), set_pos, re-assignment of the same edited model object, in-place edits of cond_pos/cond_val/ext_drift arrays, "
+    ctx.rule = ("operation histories of <= 10 operations (+ closing refresh/call + call at the conditioning points) over {call(pos?, seed?, 1-3 store-name sets, store raw_krige?, chunk_size none/1/not dividing/> n), set_pos, re-assignment of the same edited model object, in-place edits of cond_pos/cond_val/ext_drift/cond_err arrays, explicit cond_err worlds (scalar / per point) and set_condition(cond_err=), positions that keep some coordinate rows/axes, per-call ext_drift ids, "
                 "set_condition(new values / new positions / refresh), in-place model change, model / mean / trend / normalizer re-assignment, "
                 "set_generator, in-place edit of the caller's position array, direct krige(pos?) call, csrf.pos = ...}, positions passed as "
                 "float64 ndarrays (aliasing-prone), dim 1-3, simple/ordinary/universal kriging, scalar and callable trend, YeoJohnson/Modulus "
@@ -1076,10 +1250,12 @@ def run(ctx, only_history=None):
         C.log("[C07]   corpus + %d histories: %.1fs" % (n_hist, time.time() - t0))
         # ---- probes of the statement
         formula_probe(ctx, rng, drv, tie_broken, 40 if thorough else 8)
-        honour_probe(ctx, rng, drv, 8 if thorough else 2)
+        honour_probe(ctx, rng, drv, 5 if thorough else 1)
         honour_geo_probe(ctx, rng, 6 if thorough else 2)
         farfield_probe(ctx, rng, 10 if thorough else 3)
         window_probe(ctx, rng)
+        partial_pos_probe(ctx, rng, 3 if thorough else 1)
+        cond_err_probe(ctx, rng, 4 if thorough else 1)
         C.log("[C07]   probes done: %.1fs" % (time.time() - t0))
     finally:
         if drv:
